@@ -459,13 +459,18 @@ type c07Case struct {
 
 var c07TID = [12]byte{0x5a, 0x01, 0xfe, 0x33, 0x80, 0x7f, 0x11, 0x22, 0xc3, 0xd4, 0xe5, 0xf6}
 
+var c07Prefixes = [][]byte{{0x00, 0x01}, {0x00, 0x02}, {0x00, 0x03}, {0x01, 0x01}, {0, 0, 4, 1}, {0, 0, 4, 38}, {0, 0, 3, 0}, {0, 0, 5, 0}}
+
 // c07Value builds the attribute value for (getter, length, class).
 func c07Value(g c07Getter, l, class int, before []c07Part) []byte {
 	v := make([]byte, l)
 	for i := range v {
 		v[i] = byte(i*7 + 3)
 	}
-	prefix := [][]byte{{0x00, 0x01}, {0x00, 0x02}, {0x00, 0x03}, {0x01, 0x01}}[class]
+	// classes 0-3: the address-family byte and its neighbours; classes 4-7: values that MEAN something to a getter with
+	// a table behind it (the error codes 401, 438, 300 and 500 have default reason phrases), so that a getter which
+	// treats known values differently is run on them at every length, position and capacity
+	prefix := c07Prefixes[class]
 	copy(v, prefix)
 	if class == 0 {
 		switch {
@@ -507,6 +512,11 @@ func c07Message(gi, l, class, pos, slack, filler int) *stun.Message {
 		}
 	case 0x8028: // fingerprint: everything before the last 8 bytes is covered => fixed prefix, attribute last
 		before = []c07Part{{Type: 0x0006, Value: []byte("abc")}}
+		// pos > 0: attributes BEHIND the fingerprint (a relay that appends; section 15.5 says to ignore them or not, the
+		// checker may say what it likes, but it must say it without touching the message)
+		for i := 0; i < pos; i++ {
+			after = append(after, nb)
+		}
 	default:
 		switch pos {
 		case 1:
@@ -639,7 +649,7 @@ func init() {
 			}
 			for gi, g := range c07Getters {
 				for l := 0; l <= maxL; l++ {
-					for class := 0; class < 4; class++ {
+					for class := 0; class < len(c07Prefixes); class++ {
 						fam++
 						if !c.Mine(fam) {
 							continue
@@ -674,7 +684,7 @@ func init() {
 						have := false
 						np := maxPos
 						if g.Attr == 0x8028 {
-							np = 1
+							np = 3
 						}
 						if g.Attr == 0x0008 {
 							np = 3
@@ -732,7 +742,7 @@ func init() {
 										if fam%97 == 3 {
 											c.Sample(map[string]interface{}{"getter": g.Name, "value_len": l, "class": class, "outcome": clipS(out), "message_hex": hex.EncodeToString(c07Message(gi, l, class, pos, slack, filler).Raw)})
 										}
-									} else if out != first && !(g.Attr == 0x8028 && k.Trail > 0) {
+									} else if out != first && !(g.Attr == 0x8028 && (k.Trail > 0 || k.Pos > 0 || f0[0] > 0)) {
 										// (Fingerprint.Check covers Raw up to its last 8 bytes - C05 - so trailing bytes inside
 										// len(Raw) change its covered span: only totality and side effects are checked for it there)
 										k.Pos2, k.Slack2, k.Filler2 = f0[0], f0[1], f0[2]
@@ -757,7 +767,7 @@ func init() {
 					if l <= maxL {
 						continue
 					}
-					for class := 0; class < 4; class++ {
+					for class := 0; class < len(c07Prefixes); class++ {
 						fam++
 						if !c.Mine(fam) {
 							continue
